@@ -100,8 +100,13 @@ def isNd (env : Env) (c : Char) : Bool := (ndVal env c).isSome
 def digitsVal (env : Env) (ds : Str) : Nat :=
   ds.foldl (fun acc c => acc * 10 + (ndVal env c).getD 0) 0
 
-/-- `str(i)` for a non-negative index -/
-def natStr (n : Nat) : Str := (toString n).toList
+def digitChar (d : Nat) : Char := Char.ofNat (48 + d)
+
+/-- `str(i)` for a non-negative index: the ASCII decimal digits of `i` -/
+def natStr (n : Nat) : Str :=
+  if n < 10 then [digitChar n] else natStr (n / 10) ++ [digitChar (n % 10)]
+termination_by n
+decreasing_by omega
 
 /-- the tail of the index regexes: `(\d+)(?:sep|\\Z)` matched at the start of `s`.
     Returns the digit run and what is left of the key after `m.group(0)`. -/
